@@ -6,9 +6,9 @@ from collections import Counter
 from .core import VERIF
 from .lib import callers, status_const_of_ctor
 from .lib_c13 import site_what
-from .lib_c18 import census_sites, holds_variant_at
-from .lib_c16 import (PANIC_KINDS_TEXT, SELECT_OUT, SERVE, SPAWN, accept_arms, after_await, awaits, discr_switches, exits_only_on_close_signal,
-                      load_panic_table, norm_fid, owner_fn, result_switches_of, return_defs, rta_region, server_task, slice_has_call_at, variant_edge)
+from .lib_c18 import census_sites, holds_variant_at, site_cannot_fail
+from .lib_c16 import (PANIC_KINDS_TEXT, SELECT_OUT, SERVE, SPAWN, accept_arms, after_await, await_payloads, awaits, discr_switches, exits_only_on_close_signal,
+                      load_panic_table, norm_fid, owner_fn, result_switches_of, return_defs, rta_region, server_task, slice_has_call_at, variant_edge, variant_flow)
 
 LEVEL = "other"
 TECHNIQUE = "static analysis: path rules on the MIR of the accept loops and the request wrapper (error edges never leave the loop, never reach a return or a panic), forward flow of connection futures, closed census of potential panic sites over the accept-path and request-path call-graph regions against a reviewed table"
@@ -17,6 +17,7 @@ LEVEL_TEXT = ("Decides on all paths of the MIR (current tree): HttpAcceptor::acc
               "loops of the server task are left only on the close signal; every connection future and every TLS negotiation is handed to tokio::spawn / FuturesUnordered and never awaited "
               "by the accept loop; http_request_handle_wrap yields Ok(response) on every path, turning the error arm into HandlerError::into_response; and every potential panic site "
               "(" + PANIC_KINDS_TEXT + ") in the call-graph regions of the accept path and of http_request_handle_wrap is on a reviewed table with its multiplicity.  "
+              "The two outcomes of tcp.accept() are told apart by exploring the (helper-spliced, normalised) body under the hypotheses `it produced Ok` / `it produced Err`, the close signal by exploring the server task under `the select! resolved to branch i`, so where and by which test the cases are separated does not matter; a census site that is not on the table is still accepted when its function, evaluated on every value of its field-less enum parameters against the constant tables of the tree, never presents the panicking variant there (a lookup in a constant table with an entry for every variant).  "
               "Not decided: hyper's parser robustness and the validity of the bytes it emits, tokio's per-task panic isolation, what third-party callees (serde impls of consumer types, "
               "handlers) do; the region follows calls resolved to crate-local code, crate-local trait dispatch, and foreign-trait impls of types instantiated in the region.")
 LEVEL_NOTE = "Trusts rustc MIR, the extractor, tokio::spawn panic isolation, tokio::select! semantics (a branch whose pattern does not match is disabled), async-stream, hyper."
@@ -28,7 +29,7 @@ EXPLANATION = ("Rules over the MIR of server::HttpAcceptor::accept, HttpsAccepto
                "closures, async blocks and inlined private helpers count "
                "with the function they are written in; foreign-macro expansions bucketed per function; debug_assert! bodies, match arms of an enum variant the scrutinee provably cannot "
                "hold at that point, and the overflow assertion of `len(a) + len(b)` -- two object lengths cannot wrap usize -- are not sites).")
-TRUSTED = ["rustc nightly MIR + const evaluation", "mirfacts extractor", "rules/engine.py + rules/lib_c16.py + rules/lib_c18.py + rules/lib_c13.py (what a panic site tests) + rules/lib_c10.py (_sum_of_two_lengths)", "tables/c18_panics.txt (each line reviewed)", "tokio / hyper / async-stream semantics"]
+TRUSTED = ["rustc nightly MIR + const evaluation", "mirfacts extractor", "rules/engine.py + rules/lib_c16.py + rules/lib_c18.py + rules/lib_c13.py (what a panic site tests) + rules/lib_c10.py (_sum_of_two_lengths) + rules/absint.py / rules/lib_c07.py StrInterp (evaluation of constant-table lookups)", "tables/c18_panics.txt (each line reviewed)", "tokio / hyper / async-stream semantics"]
 
 TABLE = os.path.join(VERIF, "tables", "c18_panics.txt")
 _FWD_PLUMBING = r"UpgradeableConnection::<'_, I, S, E>::into_owned$|graceful::GracefulShutdown::watch$|^tokio::spawn$|mem::drop$"
@@ -47,8 +48,13 @@ def _stream_coroutine(ctx, R):
 def r1_accept_tolerates_errors(ctx):
     R = ctx.rule("C18.R1", "accept loops tolerate per-socket errors: HttpAcceptor::accept returns only on the Ok edge of tcp.accept().await and its Err paths loop back without return or "
                  "panic; the TLS stream yields only Ok(conn) and ends only when select! has no enabled branch; the server task leaves its accept loops only on the close signal", floor=10)
-    top = ctx.need_fn(ctx.ds, R, r"^server::HttpAcceptor::accept$")
-    acc = ctx.ds.body_of(top)
+    # normalised view, and the two outcomes of `tcp.accept().await` told apart by hypothesis: the body (with a private `try_accept`-style
+    # helper spliced in) is explored once under "the accept produced Ok" and once under "it produced Err" (lib_c16.variant_flow follows only
+    # the edges such an execution can take: through a match / if let on the io::Result, through the Option a helper makes of it, through
+    # flags), so it does not matter in which function or by which test the error is separated from the connection
+    D = ctx.dsn
+    top = ctx.need_fn(D, R, r"^server::HttpAcceptor::accept$")
+    acc = D.body_of(top)
     calls = acc.live_calls(r"tokio::net::TcpListener::accept$")
     if len(calls) != 1:
         ctx.lost(R, "the single TcpListener::accept call in HttpAcceptor::accept (%d found)" % len(calls))
@@ -59,21 +65,24 @@ def r1_accept_tolerates_errors(ctx):
         ctx.lost(R, "the await of tcp.accept()")
         return
     aw = aws[0]
-    sws = [(sbb, info) for sbb, info in result_switches_of(acc, aw["dest"]) if after_await(acc, aw, sbb)]
-    if len(sws) != 1:
-        ctx.lost(R, "the switch on the io::Result of tcp.accept().await (%d found)" % len(sws))
+    received = set(await_payloads(acc, aw))
+
+    def got(i):
+        return lambda pl: i if (pl["l"] in received and not pl["p"]) else None
+    f_ok, f_err = variant_flow(acc, assume=got(0), nested=True), variant_flow(acc, assume=got(1), nested=True)
+    only_err = f_err.reach - f_ok.reach
+    if not received or not f_ok.used or not f_err.used or not only_err:
+        ctx.lost(R, "a test of the io::Result of tcp.accept().await that separates the accepted connection from the error (tests decided by it: %d; blocks run only on an error: %d)" % (f_err.used, len(only_err)))
         return
-    sbb, info = sws[0]
-    okb, errb = variant_edge(acc, sbb, info, "Ok"), variant_edge(acc, sbb, info, "Err")
+    esite = (acc, min(only_err))
     rets = acc.returns()
-    ok = bool(rets) and all(acc.edge_dominates(sbb, okb, r) for r in rets)
-    ctx.check(R, "tcp-accept-returns-only-on-ok", ok, "returns of HttpAcceptor::accept: %d, all under the Ok edge of tcp.accept().await: %s" % (len(rets), ok), (acc, sbb))
-    err_region = acc.reachable(errb, avoid=[abb])
-    leaves = [b for b in err_region if acc.blocks[b]["term"]["t"] == "return"]
-    loops_back = abb in acc.reachable(errb)
-    ctx.check(R, "tcp-accept-error-loops-back", not leaves and loops_back, "from the Err edge: returns reachable before the next accept=%d; the next tcp.accept() is reachable=%s" % (len(leaves), loops_back), (acc, errb))
-    ps = [(k, w) for k, w, bucket, b in census_sites(acc) if b in err_region and acc.edge_dominates(sbb, errb, b)]
-    ctx.check(R, "tcp-accept-error-path-cannot-panic", not ps, "potential panic sites on the Err path: %s" % ps, (acc, errb))
+    ok = bool(rets) and all(r in f_ok.reach and r not in f_err.reach for r in rets)
+    ctx.check(R, "tcp-accept-returns-only-on-ok", ok, "returns of HttpAcceptor::accept: %d, all reached only when tcp.accept().await produced Ok: %s" % (len(rets), ok), (acc, aw["poll_bb"]))
+    leaves = [r for r in rets if r in f_err.reach]
+    loops_back = abb in acc.reachable(aw["ready"], avoid_edges=f_err.dead)
+    ctx.check(R, "tcp-accept-error-loops-back", not leaves and loops_back, "when the accept produced Err: returns reachable=%d; the next tcp.accept() is reachable=%s" % (len(leaves), loops_back), esite)
+    ps = [(k, w) for k, w, bucket, b in census_sites(acc) if b in only_err]
+    ctx.check(R, "tcp-accept-error-path-cannot-panic", not ps, "potential panic sites run only when the accept produced Err: %s" % ps, esite)
     inloop = abb in acc.loop_blocks()
     ctx.check(R, "tcp-accept-in-retry-loop", inloop, "tcp.accept() lies on a cycle: %s" % inloop, (acc, abb))
     # ---- TLS stream
@@ -225,6 +234,7 @@ def _accept_roots(ctx, R):
 def _census(ctx, D, R, region_name, fids, rows):
     found = Counter()
     where = {}
+    sites = {}
     for fid in sorted(fids):
         g = D.F[fid]
         # a site is attributed to the source-level function item it is written in: whether it sits in the body, in a
@@ -239,8 +249,17 @@ def _census(ctx, D, R, region_name, fids, rows):
             k = (region_name, item, ("macro-" + kind) if bucket else kind, what)
             found[k] += 1
             where.setdefault(k, (g, bb))
+            sites.setdefault(k, []).append((g, bb))
     for k in sorted(found):
         n = found[k]
+        if k not in rows and k[2] == "call":
+            # not reviewed -- but a site may be decided outright: its function is evaluated on every input (each field-less enum
+            # parameter over all its variants, constant tables as rendered by the driver) and the tested value is never the panicking
+            # variant: a lookup in a constant table keyed by an enum that has an entry for every variant cannot miss
+            verdicts = [site_cannot_fail(D, g, bb) for g, bb in sites[k]]
+            if all(ok for ok, why in verdicts):
+                ctx.check(R, "%s:%s:%s:%s" % k, True, "%d site(s) not on the table, decided by evaluation: %s" % (n, verdicts[0][1]), where[k])
+                continue
         if k not in rows:
             ctx.check(R, "%s:%s:%s:%s" % k, False, "potential panic site not on tables/c18_panics.txt: %s %s in %s (x%d) — review it and add a line with the reason, or remove it" % (k[2], k[3], k[1], n), where[k])
             continue
@@ -327,6 +346,44 @@ _I24 = " " * 24
 _M_OLD = _I24 + "match negotiation {\n" + _I28 + "Ok(conn) => yield Ok(conn),\n" + _I28 + "Err(e) => {"
 _M_END = _I32 + "warn!(log, \"tls accept err: {}\", e);\n" + _I28 + "},\n" + _I24 + "}"
 _M_END_NEW = _I32 + "warn!(log, \"tls accept err: {}\", e);\n" + _I28 + "}\n" + _I24 + "}"
+_MODE_USE_OLD = "    let mut response = match server.config.default_handler_task_mode {\n"
+_MODE_USE_NEW = "    debug!(rqctx.log, \"running handler\"; \"mode\" => TaskModeName::from(server.config.default_handler_task_mode).0);\n" + _MODE_USE_OLD
+
+
+def _mode_table(entries):
+    """A private constant (mode, name) table consulted with find_map / then_some and an expect on the result, in a From impl."""
+    return ("const TASK_MODE_NAMES: [(HandlerTaskMode, &str); %d] = [%s];\nstruct TaskModeName(&'static str);\nimpl From<HandlerTaskMode> for TaskModeName {\n"
+            "    fn from(mode: HandlerTaskMode) -> Self {\n        TaskModeName(TASK_MODE_NAMES.iter().find_map(|&(m, name)| (m == mode).then_some(name)).expect(\"every task mode has a name\"))\n    }\n}\n\n"
+            "async fn http_request_handle<C: ServerContext>(" % (len(entries), ", ".join("(HandlerTaskMode::%s, \"%s\")" % (e, e.lower()) for e in entries)))
+
+
+_ACC_OLD = "    async fn accept(&self) -> (TcpStream, SocketAddr) {\n        loop {\n            match self.tcp.accept().await {\n                Ok((socket, addr)) => return (socket, addr),\n"
+_ACC_TAIL_OLD = "                        .await;\n                    }\n                },\n            }\n        }\n    }"
+_ACC_TAIL_NEW = "                        .await;\n                    }\n                },\n            }\n            None\n        }\n    }"
+
+
+def _acc_new(on_none):
+    """HttpAcceptor::accept split into a retry loop and a private `async fn try_accept(&self) -> Option<..>` that makes one attempt,
+    deals with the error and answers None."""
+    return ("    async fn accept(&self) -> (TcpStream, SocketAddr) {\n        loop {\n            match self.try_accept().await {\n                Some(accepted) => return accepted,\n"
+            "                None => " + on_none + ",\n            }\n        }\n    }\n\n    async fn try_accept(&self) -> Option<(TcpStream, SocketAddr)> {\n        {\n"
+            "            match self.tcp.accept().await {\n                Ok((socket, addr)) => return Some((socket, addr)),\n")
+
+
+_SEL_OLD = "                None => loop {\n                    tokio::select! {\n                        (sock, remote_addr) = http_acceptor.accept() => {\n"
+_SEL_TAIL_OLD = ("                            tokio::spawn(fut);\n                        },\n\n                        _ = &mut rx => {\n                            info!(log, \"beginning graceful shutdown\");\n"
+                 "                            break;\n                        }\n                    }\n                },")
+_SEL_TAIL_NEW = "                            tokio::spawn(fut);\n                        }\n                    }\n                },"
+
+
+def _sel_new(accept_arm):
+    """The HTTP accept loop with an expression-form select! that only classifies the event, a let-else guard that leaves the loop, and the
+    per-connection code at loop-body level."""
+    return ("                None => loop {\n                    let next_conn = tokio::select! {\n                        accepted = http_acceptor.accept() => " + accept_arm + ",\n"
+            "                        _ = &mut rx => None,\n                    };\n                    let Some((sock, remote_addr)) = next_conn else {\n"
+            "                        info!(log, \"beginning graceful shutdown\");\n                        break;\n                    };\n                    {\n                        {\n")
+
+
 SELFTEST = [
     {"name": "accept-error-panics", "kind": "mutant", "why": "a per-socket accept error (ECONNABORTED from a peer that reset early) kills the accept task",
      "edits": [(_S, "                    | std::io::ErrorKind::ConnectionReset => (),", "                    | std::io::ErrorKind::ConnectionReset => panic!(\"accept failed: {}\", e),")],
@@ -393,6 +450,21 @@ SELFTEST = [
     {"name": "stream-yields-result-on-wrong-polarity", "kind": "mutant", "why": "only failed negotiations are yielded",
      "edits": [(_S, _M_OLD, _I24 + "if !Result::is_ok(&negotiation) {\n" + _I28 + "yield negotiation;\n" + _I24 + "} else if let Err(e) = negotiation {\n" + _I28 + "{"), (_S, _M_END, _M_END_NEW)],
      "expect": ["C18.R1"]},
+    {"name": "select-classifies-then-let-else-breaks", "kind": "benign", "why": "behaviour-preserving: the select! only turns the event into an Option (Some(connection) / None for the close signal); a let-else on it logs and breaks; the connection is served at loop-body level (the exit is decided under the hypotheses `the select resolved to branch i`)",
+     "edits": [(_S, _SEL_OLD, _sel_new("Some(accepted)")), (_S, _SEL_TAIL_OLD, _SEL_TAIL_NEW)]},
+    {"name": "select-classifies-connection-as-close", "kind": "mutant", "why": "same spelling, but the accept branch yields None for some peers: a connection from such a peer ends the accept loop although nobody asked the server to close",
+     "edits": [(_S, _SEL_OLD, _sel_new("if accepted.1.ip().is_unspecified() { None } else { Some(accepted) }")), (_S, _SEL_TAIL_OLD, _SEL_TAIL_NEW)],
+     "expect": ["C18.R1"]},
+    {"name": "accept-split-into-try-accept", "kind": "benign", "why": "behaviour-preserving: one attempt (with the error handling) moves into a private async fn answering Option; accept() retries until Some (R1 explores the spliced body under the hypotheses `tcp.accept() produced Ok` / `.. Err`, following the Option through the helper's Poll::Ready)",
+     "edits": [(_S, _ACC_OLD, _acc_new("continue")), (_S, _ACC_TAIL_OLD, _ACC_TAIL_NEW)]},
+    {"name": "accept-split-caller-panics-on-none", "kind": "mutant", "why": "same split, but the retry loop treats the helper's None (an accept error: ECONNABORTED, EMFILE) as fatal",
+     "edits": [(_S, _ACC_OLD, _acc_new("panic!(\"accept failed\")")), (_S, _ACC_TAIL_OLD, _ACC_TAIL_NEW)],
+     "expect": ["C18.R1"]},
+    {"name": "total-lookup-in-constant-table", "kind": "benign", "why": "no new way to panic: a constant (enum key, text) table with an entry for every variant, consulted with find_map / then_some, and an expect on the result -- R4 evaluates the function on every variant of its enum parameter against the table the driver rendered: the lookup cannot miss",
+     "edits": [(_S, "async fn http_request_handle<C: ServerContext>(", _mode_table(["Detached", "CancelOnDisconnect"])), (_S, _MODE_USE_OLD, _MODE_USE_NEW)]},
+    {"name": "partial-lookup-in-constant-table", "kind": "mutant", "why": "the same lookup in a table that lacks an entry for CancelOnDisconnect: with that task mode every request panics its connection task",
+     "edits": [(_S, "async fn http_request_handle<C: ServerContext>(", _mode_table(["Detached"])), (_S, _MODE_USE_OLD, _MODE_USE_NEW)],
+     "expect": ["C18.R4"]},
     {"name": "sleep-tuned", "kind": "benign", "why": "property-preserving: back-off after a resource-exhaustion accept error changed from 100 ms to 50 ms",
      "edits": [(_S, "                        tokio::time::sleep(std::time::Duration::from_millis(\n                            100,\n                        ))", "                        tokio::time::sleep(std::time::Duration::from_millis(\n                            50,\n                        ))")]},
 ]
